@@ -143,7 +143,10 @@ func (fc *FnCtx) inlineCall(ci calleeInfo, in ssa.Instruction, st *State, resT t
 	sub := &FnCtx{vc: fc.vc, eng: fc.eng, fn: ci.fn, con: nil, pkg: pkg, vals: map[ssa.Value]Val{},
 		reach: map[*ssa.BasicBlock]Term{}, out: map[*ssa.BasicBlock]*State{}, done: map[*ssa.BasicBlock]bool{},
 		counts: fc.counts, params: map[string]Val{}, unknownCallees: fc.unknownCallees, depth: fc.depth + 1, inline: true,
-		old: fc.old, na0: fc.na0, nowrap: fc.nowrap, frameParent: fc}
+		old: fc.old, na0: fc.na0, nowrap: fc.nowrap, frameParent: fc, loopSpecBase: -1, callSite: in, callBlock: fc.cur}
+	if base, ok := fc.root().loopHelpers[in]; ok && fc == fc.root() {
+		sub.loopSpecBase = base
+	}
 	sub.findLoops()
 	sub.noteTypes(ci.fn)
 	for i, p := range ci.fn.Params {
